@@ -139,9 +139,9 @@ isinit_d(false)
 SU_vector::SU_vector(const std::vector<double>& comp):
 dim(sqrt(comp.size())),
 size(comp.size()),
-components(new double[size]),
+components(nullptr), //allocated only once the size is known to be valid
 ptr_offset(0),
-isinit(true),
+isinit(false),
 isinit_d(false)
 {
   if(dim*dim!=size)
@@ -150,15 +150,17 @@ isinit_d(false)
     throw std::runtime_error("SU_vector::SU_vector(unsigned int): Invalid size: dimension 1 is not supported");
   if(dim>SQUIDS_MAX_HILBERT_DIM)
     throw std::runtime_error("SU_vector::SU_vector(std::vector<double>): Invalid size: only up to SU(" SQUIDS_MAX_HILBERT_DIM_STR ") is supported");
+  components=new double[size];
+  isinit=true;
   std::copy(comp.begin(),comp.end(),components);
 };
 
 SU_vector::SU_vector(const gsl_matrix_complex* m):
 dim(m->size1),
 size(dim*dim),
-components(new double[size]),
+components(nullptr), //allocated only once the size is known to be valid
 ptr_offset(0),
-isinit(true),
+isinit(false),
 isinit_d(false)
 {
   if(m->size1!=m->size2)
@@ -168,6 +170,8 @@ isinit_d(false)
   if(dim>SQUIDS_MAX_HILBERT_DIM)
     throw std::runtime_error("SU_vector::SU_vector(gsl_matrix_complex*): Invalid size: only up to SU(" SQUIDS_MAX_HILBERT_DIM_STR ") is supported");
 
+  components=new double[size];
+  isinit=true;
   std::fill(components,components+size,0.0);
 
   double m_real[dim][dim]; double m_imag[dim][dim];
